@@ -2,10 +2,10 @@
    input : <command> <arg> ...   args: decimal integers or hex byte strings ("-" = empty)
    output: one line per input line
      picc <cfsc> <cmiu> <plan> <blk>...             demo card over a block sequence
-     sess <miu> <nnak> <nack> <fff> <cfsc> <cmiu> <fuel> <item>...
+     sess <miu> <nnak> <nack> <fff> <mx> <cfsc> <cmiu> <fuel> <item>...     mx = max_extra_blocks or - (no budget)
           item = T:<apdu>:<script>:<plan> | A<0|1>:<cla>,<ins>,<p1>,<p2>,<mrl>:<data>:<script>:<plan>
           script = DDDLLC.. (pairs) or -, plan = 1,2;-;3 or -
-     stream <miu> <nnak> <nack> <fff> <fuel> <cmd> <rsp>...   reader against a scripted responder
+     stream <miu> <nnak> <nack> <fff> <mx> <fuel> <cmd> <rsp>...   reader against a scripted responder
           rsp = hex | T | E | P ; the last one repeats forever
      params a|b <hex> <max_send> <max_recv> *)
 open C12
@@ -73,32 +73,34 @@ let handle (w : string list) : string =
       let outs = List.map (fun b -> let (c', r) = picc_absorb demo_app kc !c (bytes_of_hex b) in c := c';
                              match r with None -> "none" | Some x -> hexl x) blks in
       String.concat " " outs ^ " | " ^ state !c
-  | "sess" :: miu :: nnak :: nack :: f :: cfsc :: cmiu :: fuel :: items ->
+  | "sess" :: miu :: nnak :: nack :: f :: mxs :: cfsc :: cmiu :: fuel :: items ->
       let k = cfg_of miu nnak nack f in
+      let mx = if mxs = "-" then None else Some (zi mxs) in
       let kc = { cfsc = zi cfsc; cmiu = zi cmiu } in
       let fu = nat_of_int (int_of_string fuel) in
       let pn = ref Z0 and c = ref (picc_init []) in
       let outs = List.map (fun it ->
         let o = match split ':' it with
-          | ["T"; a; sc; pl] -> exchange demo_app fu k kc (bytes_of_hex a) !pn (set_plan !c (plan_of pl)) (script_of sc)
+          | ["T"; a; sc; pl] -> fst (exchangex demo_app fu k mx kc (bytes_of_hex a) !pn (set_plan !c (plan_of pl)) (script_of sc))
           | [ak; hdr; d; sc; pl] when ak.[0] = 'A' ->
               (match List.map zi (split ',' hdr) with
                | [cla; ins; p1; p2; mrl] ->
-                   send_apdu demo_app fu k kc cla ins p1 p2 (bytes_of_hex d) mrl (ak.[1] = '1') !pn
+                   send_apdux demo_app fu k mx kc cla ins p1 p2 (bytes_of_hex d) mrl (ak.[1] = '1') !pn
                      (set_plan !c (plan_of pl)) (script_of sc)
                | _ -> failwith "hdr")
           | _ -> failwith "item" in
         pn := o.o_pni; c := o.o_card; show_o o) items in
       String.concat " " outs ^ " | " ^ state !c
-  | "stream" :: miu :: nnak :: nack :: f :: fuel :: cmd :: rsps ->
+  | "stream" :: miu :: nnak :: nack :: f :: mxs :: fuel :: cmd :: rsps ->
       let k = cfg_of miu nnak nack f in
+      let mx = if mxs = "-" then None else Some (zi mxs) in
       let arr = Array.of_list (List.map (function "T" -> ATimeout | "E" -> ATxErr | "P" -> AProto
                                                 | h -> ARx (bytes_of_hex h)) rsps) in
       let rec int_of_nat = function O -> 0 | S n -> 1 + int_of_nat n in
       let s n = let i = int_of_nat n in if Array.length arr = 0 then ATimeout
                 else arr.(min i (Array.length arr - 1)) in
       let command = bytes_of_hex cmd in
-      show_r (run_stream (nat_of_int (int_of_string fuel)) k command (pcd_start k command Z0) s O)
+      show_r (run_streamx (nat_of_int (int_of_string fuel)) k mx command { xp = pcd_start k command Z0; nx = Z0 } s O)
   | ["params"; ab; h; ms; mr] ->
       let r = if ab = "a" then t4a_params (bytes_of_hex h) (zi ms) (zi mr) else t4b_params (bytes_of_hex h) (zi ms) (zi mr) in
       (match r with
